@@ -5,12 +5,7 @@ concrete structuring elements by `decide`.
 -/
 import Mahotas.Proofs.C02Laws
 namespace Mahotas
-open Mahotas
-
-/-- the integers between 0 and `a` (inclusive) -/
-def intRange (a : Int) : List Int :=
-  if 0 ≤ a then (List.range (a.toNat + 1)).map (fun (n : Nat) => Int.ofNat n)
-  else (List.range ((-a).toNat + 1)).map (fun (n : Nat) => -Int.ofNat n)
+open Mahotas Mahotas.C14
 
 theorem mem_intRange (a a' : Int) (h : (0 ≤ a' ∧ a' ≤ a) ∨ (a ≤ a' ∧ a' ≤ 0)) : a' ∈ intRange a := by
   unfold intRange
@@ -24,11 +19,6 @@ theorem mem_intRange (a a' : Int) (h : (0 ≤ a' ∧ a' ≤ a) ∨ (a ≤ a' ∧
     show -(((-a').toNat : Nat) : Int) = a'
     omega
 
-/-- every offset between 0 and `k`, coordinate-wise -/
-def betweens : List Int → List (List Int)
-  | [] => [[]]
-  | a :: as => (intRange a).flatMap fun a' => (betweens as).map fun r => a' :: r
-
 theorem mem_betweens (k' k : List Int) (h : C01.between k' k = true) : k' ∈ betweens k := by
   induction k generalizing k' with
   | nil => cases k' <;> simp_all [C01.between, betweens]
@@ -40,10 +30,6 @@ theorem mem_betweens (k' k : List Int) (h : C01.between k' k = true) : k' ∈ be
       simp only [betweens, List.mem_flatMap, List.mem_map]
       exact ⟨a', mem_intRange a a' h.1, as', ih as' h.2, rfl⟩
 
-/-- Boolean check of `C14.StarShaped` -/
-def starShapedB (nb : List (List Int)) : Bool :=
-  nb.all fun k => (betweens k).all fun k' => C14.isZeroPos k' || nb.contains k'
-
 theorem starShaped_of_check (nb : List (List Int)) (h : starShapedB nb = true) : C14.StarShaped nb := by
   intro k hk k' hb
   unfold starShapedB at h
@@ -51,10 +37,6 @@ theorem starShaped_of_check (nb : List (List Int)) (h : starShapedB nb = true) :
   have := List.all_eq_true.mp (h k hk) k' (mem_betweens k' k hb)
   simp only [Bool.or_eq_true, List.contains_iff_mem] at this
   exact this
-
-/-- Boolean check of `C14.SymNb` -/
-def symNbB (rank : Nat) (nb : List (List Int)) : Bool :=
-  nb.all fun k => nb.contains (negPos k) && k.length == rank
 
 theorem symNb_of_check (A : Img Int) (nb : List (List Int)) (h : symNbB A.shape.length nb = true) :
     C14.SymNb A nb := by
@@ -69,11 +51,6 @@ theorem symNb_of_check (A : Img Int) (nb : List (List Int)) (h : symNbB A.shape.
     have := h k hk
     simp only [Bool.and_eq_true, beq_iff_eq] at this
     exact this.2
-
-/-- Boolean check of `C02.SymStar` -/
-def symStarB (sup : List (List Int × Int)) : Bool :=
-  sup.all fun kh =>
-    ((betweens kh.1).all fun k' => (sup.map (·.1)).contains k') && (sup.map (·.1)).contains (negPos kh.1)
 
 theorem symStar_of_check (sup : List (List Int × Int)) (h : symStarB sup = true) : C02.SymStar sup := by
   unfold symStarB at h
